@@ -62,8 +62,15 @@ def gen_world_params(rng, tier, hilbert=None, need_part=False, need_sink=False, 
         "ghost_p": rng.choice([0.0, 0.3, 0.6, 1.0]), "nout": rng.choice([1, 2, 7, 42, 118]), "siblings": [], "part": None, "sink": None,
     }
     if hilbert:
-        kind = rng.choice(["random", "random", "tiny", "clustered"])
-        if kind == "random":
+        kind = rng.choice(["random", "random", "tiny", "clustered", "aligned"])
+        if kind == "aligned" and ndim == 3:
+            # bound keys on the boundaries of coarse-cube key ranges (multiples of 8**(levelmax+1-b))
+            b = rng.choice([1, 2, 2, 3])
+            step = 8 ** max(0, levelmax + 1 - b)
+            nmul = 8 ** min(b, levelmax + 1)
+            ks = sorted(rng.sample(range(1, nmul), min(ncpu - 1, nmul - 1)))
+            p["bound_keys"] = [k * step for k in ks]
+        elif kind == "random" or kind == "aligned":
             p["bound_frac"] = sorted(rng.random() for _ in range(ncpu - 1))
         elif kind == "tiny":
             base = rng.random() * 0.9
